@@ -566,6 +566,10 @@ func (e *Engine) baseClass(f *ssa.Function, v ssa.Value) string {
 			if ct := e.contracts.Funcs[e.keyOf(g)]; ct != nil && ct.FreshResult {
 				return "#FRESH"
 			}
+			if g.String() == "(reflect.Value).MapRange" {
+				// a new iterator object
+				return "#FRESH"
+			}
 		}
 	case *ssa.UnOp:
 		if x.Op == token.MUL {
@@ -956,6 +960,16 @@ func (e *Engine) externalEffects(caller, f *ssa.Function, c *ssa.CallCommon) []s
 			return []string{"BD#FRESH", "BL#FRESH", "EXT"}
 		}
 		return []string{"BD", "BL", "EXT"}
+	case name == "(*reflect.MapIter).Next":
+		// the position of this iterator only (ghost state of the receiver), classified relative to the caller
+		if c != nil && len(c.Args) > 0 && caller != nil {
+			if cls := e.baseClass(caller, c.Args[0]); cls == "#FRESH" || strings.HasPrefix(cls, "#P") {
+				return []string{"G|reflect.MapIter.pos|Int" + cls}
+			}
+		}
+		return []string{"G|reflect.MapIter.pos|Int"}
+	case name == "(*reflect.MapIter).Key", name == "(*reflect.MapIter).Value":
+		return nil
 	case name == "os.Open", name == "(*os.File).Close":
 		return []string{"X|openfiles|Int"}
 	case name == "sort.Strings":
